@@ -45,22 +45,22 @@ var properties = []Property{
 		NotDecided:  "values Go arithmetic produces; cells computed by calls other than power/substring (regexp match); dispatch on operand types beyond C05's clause; nesting; integer % by zero (a recovered panic, which the property allows as an error).",
 		Assumptions: commonAssumptions},
 	{ID: "C02", Title: "control flow", Level: "other",
-		Rules:       []string{"R-PATCHALL", "R-JUMPSET", "R-HANDLERS", "R-LOOPHEAD", "R-ITERNEXT", "R-MEMBERSHIP", "R-SWITCHDEFAULT", "R-NOMUT", "R-JOINPH", "R-EMITSET", "R-LOOPSTACK", "R-SWITCHONCE"},
+		Rules:       []string{"R-PATCHALL", "R-JUMPSET", "R-HANDLERS", "R-LOOPHEAD", "R-ITERNEXT", "R-MEMBERSHIP", "R-SWITCHDEFAULT", "R-NOMUT", "R-JOINPH", "R-EMITSET", "R-LOOPSTACK", "R-SWITCHONCE", "R-SCOPEFRESH"},
 		Explanation: "SSA path analysis of the compiler: every placeholder jump is back-patched on every successful path, loops jump back to a head recorded before the re-executed code, the jump opcode set is the same in VM/optimizer/compiler, every opcode has a handler and the return opcode leaves the interpreter. The foreach handler advances its cursor once per cycle, membership loops have no early exit on a non-match, and a switch's default arm is compiled after every case. Each construct is translated with the opcodes of its scheme only (closed table), forward labels are outside every folding window. Known findings: a foreach body can bury the iterator it keeps on the stack; the switch subject is translated once per arm.",
 		NotDecided:  "that patched offsets are the right ones (values computed while Prepare runs), order of arms, element order of foreach.",
 		Assumptions: commonAssumptions},
 	{ID: "C03", Title: "optimizer transparency", Level: "other",
-		Rules:       []string{"R-JOINPH", "R-FOLDAGREE", "R-JUMPSET", "R-EMITLEN", "R-NOINJECT", "R-FLAGONLY", "R-FOLDRESET", "R-OPTCLOSED", "R-FOLDARITY"},
+		Rules:       []string{"R-JOINPH", "R-FOLDAGREE", "R-JUMPSET", "R-EMITLEN", "R-NOINJECT", "R-FLAGONLY", "R-FOLDRESET", "R-OPTCLOSED", "R-FOLDARITY", "R-TABLEKEEP"},
 		Explanation: "Structural soundness conditions of the peephole optimizer: every forward label is outside every folding window (placeholder or preceded by an unconditional jump) and the folder resets its window on unnamed opcodes; jump sets agree between VM, NOP removal, dead-code pass and compiler; operand presence agrees; the optimizer switch is not script-visible. The optimizer performs exactly the enumerated rewrites (a new one is reported as not decided). Every write of the folder needs as many pending constants as the operator has operands.",
 		NotDecided:  "observational equivalence of optimized and unoptimized programs in general.",
 		Assumptions: commonAssumptions},
 	{ID: "C13", Title: "invalid scripts are rejected", Level: "other",
-		Rules:       []string{"R-NILERR", "R-ERRPROP", "R-BLOCKOPEN", "R-TOPSTOP", "R-TERNGUARD", "R-LOCALGUARD", "R-EOFSENTINEL", "R-NAMETOKEN", "R-FUNCFLAG", "R-SEENTOKEN", "R-VISITALL", "R-ONEDEFAULT", "R-TEXTOFNODE"},
+		Rules:       []string{"R-NILERR", "R-ERRPROP", "R-BLOCKOPEN", "R-TOPSTOP", "R-TERNGUARD", "R-LOCALGUARD", "R-EOFSENTINEL", "R-NAMETOKEN", "R-FUNCFLAG", "R-SEENTOKEN", "R-VISITALL", "R-ONEDEFAULT", "R-TEXTOFNODE", "R-CHILDCOMPILED"},
 		Explanation: "SSA dataflow over the parser and compiler: a parse function returns nil only after an error was recorded (must-dataflow with callee summaries, through the registered parselet tables), Parse turns a non-empty error list into an error, every error-valued call has its error looked at and never replaced by nil, blocks are parsed only after '{' was demanded, the top-level loop stops only at end of input, nested ternaries and `local` outside functions are rejected. Names are only taken from tokens tested to be identifiers, the in-function flag is cleared on every exit, and the parser never steps over a token it has not looked at (identified beforehand as one kind on every path, or examined afterwards). Compiler loops over a node's children are left early only with an error, a switch cannot end up with two default arms, the printed form of a node stands for it only where the node is an identifier, and a ternary's condition is examined for a ternary.",
 		NotDecided:  "that each individual syntax check is the right check (needs a grammar as oracle).",
 		Assumptions: commonAssumptions},
 	{ID: "C04", Title: "host object fields", Level: "other",
-		Rules:       []string{"R-NONNIL", "R-RUNRESET", "R-LOOKUPORDER", "R-KINDTABLE", "R-COMMAOK", "R-PUREARGS"},
+		Rules:       []string{"R-NONNIL", "R-RUNRESET", "R-LOOKUPORDER", "R-KINDTABLE", "R-COMMAOK", "R-PUREARGS", "R-REFLECTKIND"},
 		Explanation: "Conversion of host fields is total and never yields a nil object (SSA nil-source analysis with function summaries over every Object-returning function and every push/store sink), every run and nested call starts from an empty field cache, and names resolve as variable, then field, then null (dominance in the resolver). The reflect.Kind → object table is the documented one, comma-ok results are used only where ok was tested, and no built-in reorders or writes an array it was given (a field's array is shared with the field cache).",
 		NotDecided:  "lossless conversion per kind, order and length of arrays, nested maps: values produced by reflection at run time.",
 		Assumptions: commonAssumptions},
@@ -70,7 +70,7 @@ var properties = []Property{
 		NotDecided:  "the values of comparisons themselves.",
 		Assumptions: commonAssumptions},
 	{ID: "C08", Title: "no crash of the host", Level: "other",
-		Rules:       []string{"R-RECOVER", "R-NONNIL", "R-RECURSION", "R-ERRPROP", "R-FRAMERESTORE", "R-MACHINENIL", "R-COMMAOK", "R-LOCKPAIR", "R-FOLDSAFE", "R-USEBEFORECHECK", "R-PREPAREFRESH", "R-INDEXRESULT", "R-PANICSITES"},
+		Rules:       []string{"R-RECOVER", "R-NONNIL", "R-RECURSION", "R-ERRPROP", "R-FRAMERESTORE", "R-MACHINENIL", "R-COMMAOK", "R-LOCKPAIR", "R-FOLDSAFE", "R-USEBEFORECHECK", "R-PREPAREFRESH", "R-INDEXRESULT", "R-PANICSITES", "R-OPTCLOSED", "R-POOLOWNER"},
 		Explanation: "Execute recovers and sets both results, Run does nothing that can panic afterwards, no nil object escapes, unbounded recursion reachable from the API is enumerated (Tarjan SCCs of the VTA call graph; each needs a depth guard), errors are propagated, and the machine is restored after a failed call so the evaluator remains usable. API methods touch the machine only where it exists, a failed Prepare leaves no stale machine behind, every Lock is released on every path, a position from strings.Index is used as a bound only where -1 was excluded, a constant division by zero is not folded. Outside the recover (Prepare with lexer, parser, compiler, machine construction and optimizer; Dump; Run's tail; the other API methods) every index, slice expression, unchecked type assertion and integer division is discharged: proven from the dominating comparisons (difference constraints with loop-counter induction and identification of repeated loads), or recognised as an index handed out by package sort or a position inside well-formed bytecode; there is no explicit panic there.",
 		NotDecided:  "memory exhaustion; panics inside the recover region (they become errors, which the property allows); nil-pointer dereferences and nil-map writes outside the recover other than those R-NONNIL / R-MACHINENIL / R-COMMAOK cover; panics raised inside the standard library on arguments it rejects; host-supplied Object implementations.",
 		Assumptions: commonAssumptions},
@@ -80,17 +80,17 @@ var properties = []Property{
 		NotDecided:  "the length of the delay: a single instruction (regexp match, sort, a huge range) may run long; Go scheduling.",
 		Assumptions: commonAssumptions},
 	{ID: "C06", Title: "functions and scopes", Level: "other",
-		Rules:       []string{"R-SCOPEPAIR", "R-SCOPERESTORE", "R-BINDINNER", "R-FRAMERESTORE", "R-LOCALGUARD", "R-CALLPROTO", "R-SCOPESEARCH", "R-SCOPEFRESH"},
+		Rules:       []string{"R-SCOPEPAIR", "R-SCOPERESTORE", "R-BINDINNER", "R-FRAMERESTORE", "R-LOCALGUARD", "R-CALLPROTO", "R-SCOPESEARCH", "R-SCOPEFRESH", "R-TABLEKEEP", "R-BODYRETURN", "R-FUNCFLAG"},
 		Explanation: "SSA dominance and call-graph checks on the call protocol: the callee's scope is opened before parameters are bound, binding goes to the innermost scope, scopes and the swapped VM fields are restored by deferred code (by absolute depth / to the pre-swap values) on every exit, loops open and close their scope, `local` only inside functions. A built-in wins over a user function and the arity check applies to the function actually called; scope walks go innermost first; every scope pushed is a freshly made map and the stack is only ever truncated.",
 		NotDecided:  "innermost-first lookup order and the redirect of assignments to an existing local (loop direction over run-time data); results of recursion; built-in-before-user lookup order.",
 		Assumptions: commonAssumptions},
 	{ID: "C07", Title: "no hidden state between runs", Level: "other",
-		Rules:       []string{"R-STATECENSUS", "R-RUNRESET", "R-FRAMERESTORE", "R-SCOPERESTORE", "R-NOMUT", "R-PREPAREFRESH", "R-SCOPEFRESH"},
+		Rules:       []string{"R-STATECENSUS", "R-RUNRESET", "R-FRAMERESTORE", "R-SCOPERESTORE", "R-NOMUT", "R-PREPAREFRESH", "R-SCOPEFRESH", "R-CTXFLOW", "R-POOLOWNER"},
 		Explanation: "Ownership/effect argument: a census of every struct field, map and package variable written by code reachable from the interpreter (VTA call graph) must fall into a classified group, and each class's obligation is checked: reset at interpreter entry, restored by defer on every exit, scope stack restored by depth, mutation only on private copies. Scopes are never recycled: each one pushed is a freshly made map.",
 		NotDecided:  "cost growth other than through the scope stack and value stack; state inside host-supplied objects and functions.",
 		Assumptions: commonAssumptions},
 	{ID: "C15", Title: "numbers, strings and booleans are values", Level: "other",
-		Rules:       []string{"R-NOMUT", "R-CONSTDEDUP", "R-PUREARGS"},
+		Rules:       []string{"R-NOMUT", "R-CONSTDEDUP", "R-PUREARGS", "R-POOLOWNER"},
 		Explanation: "Immutability argument: if no code reachable from the interpreter mutates a value object other than a private copy (receiver-mutating methods are only invoked on results of a copier covering every library type that has them; nothing else stores into object fields), then sharing pointers between variables, the constant pool and the field cache is unobservable — which is the property inside the library.",
 		NotDecided:  "objects of host-defined types implementing the increment/iteration interfaces.",
 		Assumptions: commonAssumptions},
@@ -121,17 +121,17 @@ var properties = []Property{
 		NotDecided:  "what regexp literals denote character by character, and that layout and comments never change the token sequence in general: character-level value semantics.",
 		Assumptions: commonAssumptions},
 	{ID: "C16", Title: "containers", Level: "other",
-		Rules:       []string{"R-SCRIPTINDEX", "R-HASHKEY", "R-MAPORDER", "R-NOMUT", "R-ITERNEXT", "R-RANGE", "R-POPORDER", "R-MEMBERSHIP", "R-LENKIND"},
+		Rules:       []string{"R-SCRIPTINDEX", "R-HASHKEY", "R-MAPORDER", "R-NOMUT", "R-ITERNEXT", "R-RANGE", "R-POPORDER", "R-MEMBERSHIP", "R-LENKIND", "R-PUREARGS"},
 		Explanation: "Every slice index computed from a script value is proven within bounds from the dominating comparisons (difference constraints over canonical len terms); every HashKey() keeps the type and the value of the key; hash entries are iterated in a total order (sorted with a comparator that identifies the entry); iteration works on a private cursor so every entry is visited exactly once even in nested loops. Ranges are built start to end inclusive, literals pop their elements in reverse push order, membership compares type and printed form over every element, len counts runes/elements.",
 		NotDecided:  "element order from the stack, len, membership: values.",
 		Assumptions: commonAssumptions},
 	{ID: "C19", Title: "determinism", Level: "other",
-		Rules:       []string{"R-MAPORDER", "R-NONDETSRC", "R-PREPAREFRESH", "R-NOMUT"},
+		Rules:       []string{"R-MAPORDER", "R-NONDETSRC", "R-PREPAREFRESH", "R-NOMUT", "R-POOLOWNER"},
 		Explanation: "Every iteration over a Go map in the library is classified as order-insensitive, collected-then-totally-sorted, or listed with a reason; there is no goroutine, multi-way select, pointer printing or randomness in the library; Prepare starts from empty compile outputs. No stack trace, goroutine or process identity reaches a result; a listed order-insensitive map loop must run to exhaustion.",
 		NotDecided:  "nothing structural remains; what remains is values (and now()/time()/getenv(), which the property excludes).",
 		Assumptions: commonAssumptions},
 	{ID: "C17", Title: "built-in contracts", Level: "other",
-		Rules:       []string{"R-ARGGUARD", "R-PUREARGS", "R-NUMORDER", "R-LENKIND", "R-TIMEFIELDS", "R-USEBEFORECHECK", "R-JOINSHAPE", "R-NUMBASE", "R-MATCHONCE", "R-CUTSET"},
+		Rules:       []string{"R-ARGGUARD", "R-PUREARGS", "R-NUMORDER", "R-LENKIND", "R-TIMEFIELDS", "R-USEBEFORECHECK", "R-JOINSHAPE", "R-NUMBASE", "R-MATCHONCE", "R-CUTSET", "R-COMMAOK"},
 		Explanation: "Narrow claim. Totality on wrong arity/type: every args[k] and every unchecked assertion of an argument is guarded by a dominating length / Type() test (abstract interpretation over length sets and type facts, with helper functions checked at their call sites). Inputs unchanged: no built-in stores into, sorts in place or mutates anything reachable from its arguments. min/max/between: no ordering by printed form is reachable when both arguments are numbers, the numeric helper computes left < right, min returns the smaller and max the larger argument, between is false exactly when v < lo or hi < v. join only concatenates element text and separator, places separators by position and does not post-process its result; int/float read base 10 / 64 bits; the time built-ins call the time method of the same name; len counts runes/elements. The time is decomposed in $TZ or UTC on every path; the matcher tries its pattern at least once; Trim calls have constant cutsets.",
 		NotDecided:  "every value-level contract: split and the join/split round trip as a whole, sort's permutation property, conversions, string helpers.",
 		Assumptions: commonAssumptions},
@@ -141,7 +141,7 @@ var properties = []Property{
 		NotDecided:  "argument order of host calls (index arithmetic over run-time counts), what the driver prints character by character, the lex/parse sub-commands' output.",
 		Assumptions: commonAssumptions},
 	{ID: "C18", Title: "well-formed code", Level: "other",
-		Rules:       []string{"R-EMITLEN", "R-HANDLERS", "R-PATCHALL", "R-JOINPH", "R-JUMPSET", "R-OPBOUNDARY", "R-NARROW", "R-CONSTDEDUP", "R-FOLDRESET", "R-BODYSTATE", "R-OPTCLOSED", "R-CONSTREF", "R-COUNTED", "R-EMITSET", "R-VALUEPOS", "R-LOOPSTACK"},
+		Rules:       []string{"R-EMITLEN", "R-HANDLERS", "R-PATCHALL", "R-JOINPH", "R-JUMPSET", "R-OPBOUNDARY", "R-NARROW", "R-CONSTDEDUP", "R-FOLDRESET", "R-BODYSTATE", "R-OPTCLOSED", "R-CONSTREF", "R-COUNTED", "R-EMITSET", "R-VALUEPOS", "R-LOOPSTACK", "R-POOLOWNER", "R-BODYRETURN"},
 		Explanation: "Emitter-side structural checks: operand presence agrees with code.Length at every emit site and handler, every opcode is handled, every placeholder is patched, every forward label is followed by an instruction, jump sets agree, opcodes are only read at instruction pointers, 16-bit operands are range-checked. Compiler state reset for a function body is restored after it (so the implicit return is decided on the body just compiled), the optimizer removes exactly NOPs, and its constant window is reset, not trimmed. Every instruction whose handler indexes the constant table is emitted with the index the constant pool returned. Counted instructions take their count from the field whose loop pushes exactly that many operands; each construct emits only the opcodes of its scheme. Known findings: value-less constructs (assignment, compound assignment, ++/--) are accepted as operands and underflow the stack at run time; a foreach body can bury its iterator.",
 		NotDecided:  "stack balance on every path and jump targets of a given emitted program (properties of Prepare's output); R-VALUEPOS and R-LOOPSTACK decide two necessary conditions of stack discipline only.",
 		Assumptions: commonAssumptions},
